@@ -12,7 +12,7 @@ import json, os, re, shutil, subprocess, sys, time
 
 S = "/tmp/mutsweep"
 OUT = "/verif/seeded/own"
-ENV = dict(os.environ, CARGO_NET_OFFLINE="true", VERIF_OUT_DIR=f"{S}/out", VERIF_SEED="1")
+ENV = dict(os.environ, CARGO_NET_OFFLINE="true", VERIF_OUT_DIR=f"{S}/out", VERIF_SEED="1", VERIF_REPO_SRC=f"{S}/repo/src")
 
 
 def sh(cmd, cwd=None, timeout=1800):
